@@ -280,6 +280,119 @@ func (p *pkgInfo) transitions() (rows []string, pre []string) {
 	return
 }
 
+// scanSkeleton flattens scan into the ordered list of the things that decide its behaviour: per
+// clause of the state switch (and for the statements before it) which classifier is consulted
+// (regexp, literal comparison, helper call, emptiness test), which state is assigned, what is
+// returned, in source order.  A reordering, a dropped test or an added shortcut changes it.
+func (p *pkgInfo) scanSkeleton() []string {
+	fd := p.funcDecl("scanningState", "scan")
+	tokensOf := func(nodes []ast.Stmt) []string {
+		var out []string
+		for _, st := range nodes {
+			ast.Inspect(st, func(n ast.Node) bool {
+				switch v := n.(type) {
+				case *ast.SwitchStmt:
+					if sel, ok := v.Tag.(*ast.SelectorExpr); ok && sel.Sel.Name == "state" {
+						return false
+					}
+				case *ast.BranchStmt:
+					out = append(out, strings.ToLower(v.Tok.String()))
+				case *ast.AssignStmt:
+					if len(v.Lhs) == 1 {
+						if sel, ok := v.Lhs[0].(*ast.SelectorExpr); ok && sel.Sel.Name == "state" {
+							if id, ok := v.Rhs[0].(*ast.Ident); ok {
+								out = append(out, "->"+id.Name)
+							}
+						}
+					}
+				case *ast.ReturnStmt:
+					var rs []string
+					for _, r := range v.Results {
+						switch x := r.(type) {
+						case *ast.Ident:
+							rs = append(rs, x.Name)
+						default:
+							rs = append(rs, "expr")
+						}
+					}
+					out = append(out, "ret("+strings.Join(rs, ",")+")")
+				case *ast.BinaryExpr:
+					if sel, ok := v.X.(*ast.SelectorExpr); ok && sel.Sel.Name == "state" {
+						if id, ok := v.Y.(*ast.Ident); ok {
+							out = append(out, "state"+v.Op.String()+id.Name)
+						}
+					}
+					if c, ok := v.X.(*ast.CallExpr); ok {
+						if id, ok := c.Fun.(*ast.Ident); ok && id.Name == "len" {
+							if lit, ok := v.Y.(*ast.BasicLit); ok && lit.Value == "0" {
+								if a, ok := c.Args[0].(*ast.Ident); ok {
+									out = append(out, "len("+a.Name+")"+v.Op.String()+"0")
+								}
+							}
+						}
+					}
+				case *ast.CallExpr:
+					switch f := v.Fun.(type) {
+					case *ast.SelectorExpr:
+						if x, ok := f.X.(*ast.Ident); ok {
+							switch {
+							case strings.HasPrefix(x.Name, "re") && (f.Sel.Name == "FindSubmatch" || f.Sel.Name == "Match"):
+								out = append(out, "re:"+x.Name)
+							case x.Name == "bytes" && len(v.Args) == 2:
+								if b, ok := v.Args[1].(*ast.Ident); ok {
+									out = append(out, "bytes."+f.Sel.Name+":"+b.Name)
+								} else {
+									out = append(out, "bytes."+f.Sel.Name)
+								}
+							case x.Name == "errors" || x.Name == "fmt":
+								out = append(out, "err")
+							}
+						}
+					case *ast.Ident:
+						switch f.Name {
+						case "parseFunc", "parseFile", "parseArgs", "isFramesElidedLine", "atou", "trimLeftSpace", "panic":
+							out = append(out, "call:"+f.Name)
+						}
+					}
+				}
+				return true
+			})
+		}
+		return out
+	}
+	var rows []string
+	var pre []ast.Stmt
+	var sw *ast.SwitchStmt
+	for _, st := range fd.Body.List {
+		if s, ok := st.(*ast.SwitchStmt); ok {
+			if sel, ok := s.Tag.(*ast.SelectorExpr); ok && sel.Sel.Name == "state" {
+				sw = s
+				continue
+			}
+		}
+		if sw == nil {
+			pre = append(pre, st)
+		}
+	}
+	if sw == nil {
+		die("switch s.state not found in scan")
+	}
+	rows = append(rows, fmt.Sprintf("(%s, [%s])", leanStr("<before the switch>"), quoteAll(tokensOf(pre))))
+	for _, c := range sw.Body.List {
+		cc := c.(*ast.CaseClause)
+		label := "default"
+		if len(cc.List) > 0 {
+			var ls []string
+			for _, e := range cc.List {
+				ls = append(ls, e.(*ast.Ident).Name)
+			}
+			label = strings.Join(ls, ",")
+		}
+		rows = append(rows, fmt.Sprintf("(%s, [%s])", leanStr(label), quoteAll(tokensOf(cc.Body))))
+	}
+	return rows
+}
+
 func quoteAll(ss []string) string {
 	var q []string
 	for _, s := range ss {
@@ -517,6 +630,7 @@ func main() {
 	rows, pre := st.transitions()
 	fmt.Fprintf(&out, "/-- (case labels, targets of `s.state = …`, ends in fallthrough, explicit panics) per clause of scan's switch -/\ndef scanTransitions : List (String × List String × Bool × Nat) := [\n  %s]\n", strings.Join(rows, ",\n  "))
 	fmt.Fprintf(&out, "/-- `s.state = …` assignments of scan before the switch -/\ndef scanPreSwitchTargets : List String := [%s]\n\n", quoteAll(pre))
+	fmt.Fprintf(&out, "/-- per clause of scan's switch (and for the code before it): classifiers consulted, states assigned, returns, in source order -/\ndef scanSkeleton : List (String × List String) := [\n  %s]\n\n", strings.Join(st.scanSkeleton(), ",\n  "))
 
 	fmt.Fprintf(&out, "/-- assignments to package-level variables inside function bodies, as func:var -/\ndef stackGlobalWrites : List String := [%s]\ndef internalGlobalWrites : List String := [%s]\n\n", quoteAll(st.globalWrites()), quoteAll(in.globalWrites()))
 
